@@ -20,7 +20,7 @@ Local Open Scope N_scope.
 Inductive oof :=
 | OofNonAsciiName      (* an IDENT/keyword value with a byte >= 0x80 (strings.ToUpper is Unicode-aware) *)
 | OofObjectType        (* JSON(...) / OBJECT(...): ObjectTypeArgument, SKIP, dotted paths *)
-| OofExprToken         (* parameter starts with a token outside STRING NUMBER MINUS IDENT *)
+| OofExprToken         (* parameter starts with + * ( [ ? {param}: prefix forms outside the fragment *)
 | OofExprOperator      (* an operator / postfix token follows a parameter operand (other than STRING = number) *)
 | OofNumberFormat      (* NUMBER that is not a plain decimal digit string (hex, float, underscores ...) *)
 | OofNumberRange       (* NUMBER >= 2^64: the Go parser switches to float64 *)
@@ -151,29 +151,38 @@ Definition parse_signed (ts : list tok) : res (bool * N * list tok) :=
     else OOF OofMinusOperand
   else OOF OofBinaryRight.
 
-Definition parse_expr_param (ts : list tok) : res (param * list tok) :=
+(* tokens for which parsePrefixExpression has no case and which are not keywords: it returns nil without consuming
+   and without recording an error *)
+Definition no_prefix_tok (t : tok) : bool :=
+  existsb (N.eqb (tk t))
+    [ T_ILLEGAL; T_EOF; T_SLASH; T_PERCENT; T_EQ; T_NEQ; T_LT; T_GT; T_LTE; T_GTE; T_CONCAT; T_ARROW;
+      T_COLONCOLON; T_NULL_SAFE_EQ; T_CARET; T_RPAREN; T_RBRACKET; T_LBRACE; T_RBRACE; T_COMMA; T_DOT;
+      T_SEMICOLON; T_COLON ].
+
+(* Some p: the parameter expression; None: parseExpression returned nil *)
+Definition parse_expr_param (ts : list tok) : res (option param * list tok) :=
   let c := cur ts in
   if tok_is T_STRING c then
     let ts1 := tl ts in
-    if expr_stops ts1 then Ok (PStr (tv c), ts1)
+    if expr_stops ts1 then Ok (Some (PStr (tv c)), ts1)
     else if tok_is T_EQ (cur ts1) then
       (* parseBinaryExpression: Op = the token text ("=" or "=="); ANY/ALL modifiers are out *)
       let op := tv (cur ts1) in
       let ts2 := tl ts1 in
       if tok_is T_ANY (cur ts2) || tok_is T_ALL (cur ts2) then OOF OofAnyAll
       else match parse_signed ts2 with
-           | Ok (neg, n, ts3) => if expr_stops ts3 then Ok (PBin (tv c) op neg n, ts3) else OOF OofExprOperator
+           | Ok (neg, n, ts3) => if expr_stops ts3 then Ok (Some (PBin (tv c) op neg n), ts3) else OOF OofExprOperator
            | ParseErr => ParseErr | OOF r => OOF r | OutOfFuel => OutOfFuel
            end
     else OOF OofExprOperator
   else if tok_is T_NUMBER c then
     match parse_number (tv c) with
-    | Ok n => if expr_stops (tl ts) then Ok (PInt n, tl ts) else OOF OofExprOperator
+    | Ok n => if expr_stops (tl ts) then Ok (Some (PInt n), tl ts) else OOF OofExprOperator
     | ParseErr => ParseErr | OOF r => OOF r | OutOfFuel => OutOfFuel
     end
   else if tok_is T_MINUS c then
     match parse_signed ts with
-    | Ok (_, n, ts2) => if expr_stops ts2 then Ok (PNeg n, ts2) else OOF OofExprOperator
+    | Ok (_, n, ts2) => if expr_stops ts2 then Ok (Some (PNeg n), ts2) else OOF OofExprOperator
     | ParseErr => ParseErr | OOF r => OOF r | OutOfFuel => OutOfFuel
     end
   else if tok_is T_IDENT c then
@@ -186,8 +195,9 @@ Definition parse_expr_param (ts : list tok) : res (param * list tok) :=
     else if match name with b1 :: b2 :: _ => (b1 =? 64) && (b2 =? 64) | _ => false end then OOF OofTypedLiteral
     else if tok_is T_LPAREN (cur ts1) then OOF OofFunctionCall
     else if tok_is T_DOT (cur ts1) then OOF OofQualified
-    else if expr_stops ts1 then Ok (PIdent name, ts1) else OOF OofExprOperator
+    else if expr_stops ts1 then Ok (Some (PIdent name), ts1) else OOF OofExprOperator
   else if is_name c then OOF OofKeywordExpr
+  else if no_prefix_tok c then Ok (None, ts)
   else OOF OofExprToken.
 
 (* ------------------------------------------------------------------------------------------ *)
@@ -262,7 +272,8 @@ with parse_params (fuel : nat) (named : bool) (acc : list param) (ts : list tok)
       end
     else
       match parse_expr_param ts with
-      | Ok (p, ts1) => continue (acc ++ [p]) ts1
+      | Ok (Some p, ts1) => continue (acc ++ [p]) ts1
+      | Ok (None, ts1) => continue acc ts1
       | ParseErr => ParseErr | OOF r => OOF r | OutOfFuel => OutOfFuel
       end
   end.
@@ -355,6 +366,18 @@ Definition explain_type (d : option dtype) : list N :=
            end in
   [92; 39] ++ s ++ [92; 39].
 
+(* what the two cast positions show: the type line of EXPLAIN and the remaining input *)
+Definition cast_as_text (fuel : nat) (ts : list tok) : res (list N * list tok) :=
+  match parse_cast_as fuel ts with
+  | Ok (d, rest) => Ok (explain_type d, rest)
+  | ParseErr => ParseErr | OOF r => OOF r | OutOfFuel => OutOfFuel
+  end.
+Definition cast_op_text (fuel : nat) (ts : list tok) : res (list N * list tok) :=
+  match parse_cast_op fuel ts with
+  | Ok (d, rest) => Ok (explain_type d, rest)
+  | ParseErr => ParseErr | OOF r => OOF r | OutOfFuel => OutOfFuel
+  end.
+
 (* ------------------------------------------------------------------------------------------ *)
 (* entry points used by the driver: the tokens of <T> alone, as lexer.Tokenize returns them *)
 
@@ -368,8 +391,8 @@ Definition run_cast_as (toks_t : list tok) : res (list N) :=
   let t := drop_eof (strip_trivia toks_t) in
   if negb (ascii_names t) then OOF OofNonAsciiName
   else
-    match parse_cast_as (fuel_for t) ((T_AS, [65; 83]) :: t ++ [(T_RPAREN, [41])]) with
-    | Ok (d, []) => Ok (explain_type d)
+    match cast_as_text (fuel_for t) ((T_AS, [65; 83]) :: t ++ [(T_RPAREN, [41])]) with
+    | Ok (txt, []) => Ok txt
     | Ok (_, _ :: _) => OOF OofTrailing
     | ParseErr => ParseErr | OOF r => OOF r | OutOfFuel => OutOfFuel
     end.
@@ -379,8 +402,8 @@ Definition run_cast_op (toks_t : list tok) : res (list N) :=
   let t := drop_eof (strip_trivia toks_t) in
   if negb (ascii_names t) then OOF OofNonAsciiName
   else
-    match parse_cast_op (fuel_for t) ((T_COLONCOLON, [58; 58]) :: t) with
-    | Ok (d, []) => Ok (explain_type d)
+    match cast_op_text (fuel_for t) ((T_COLONCOLON, [58; 58]) :: t) with
+    | Ok (txt, []) => Ok txt
     | Ok (_, _ :: _) => OOF OofTrailing
     | ParseErr => ParseErr | OOF r => OOF r | OutOfFuel => OutOfFuel
     end.
